@@ -248,6 +248,8 @@ def main():
                             w = cls(io.BytesIO() if fmt == "Binary" else io.StringIO())
                             made.append(cls.__name__)
                 for sub in ("binary", "ndjson"):
+                    if sub == "ndjson" and not os.path.exists(os.path.join(outdir, pkg, "ndjson.py")):
+                        continue          # python.generateNDJson: false
                     sm = importlib.import_module(pkg + "." + sub)
                     for name in dir(sm):
                         obj = getattr(sm, name)
